@@ -144,6 +144,16 @@ func run(c *lib.Ctx) error {
 		why := fmt.Sprint(b.Info...)
 		c.Reject(reKey(k, why), fmt.Sprintf("recorded re: outputs rejected by JudgeRe (%s): pattern %q text %q: %s", why, k.Pat, string(toBytes(k.S)), mustJSON(k)), replayFile{Kind: "re", Re: &k})
 	}
+	// ---- V: re builtins, histories in one process (&longest / &posix alternating)
+	qc := seqCases(c, pool)
+	c.Logf("judging %d recorded re histories", len(qc))
+	if err := judgeSeq(c, dir, qc, 4); err != nil {
+		wg.Wait()
+		return err
+	}
+	if len(qc) > 0 {
+		c.Sample(qc[len(qc)/2])
+	}
 	wg.Wait()
 	if mErr != nil {
 		return mErr
